@@ -5,6 +5,7 @@ import numpy as np
 
 from .. import load
 from .. import gen
+from ..core import CaseAbort
 from ..denote import denote, close, same
 
 np_, ttb = load()
@@ -90,7 +91,9 @@ def _gen_cases(tier, seed):
                             yield C(w="fixsigns_ref", shape=list(shp), R=R, comp=comp, signs=list(signs), wk="positive", zerocol=False)
 
 
-PRE = [None, "normalize-all", "normalize-mode", "redistribute", "arrange", "c-order-factors", None, "update-all"]
+PRE = [None, "normalize-all", "normalize-mode", "redistribute", "arrange", "c-order-factors", None, "update-all", "arrange-negate", "normalize-scale-negative",
+       "arrange-flip-some-weights"]
+CHANGES_TENSOR = ("arrange-negate", "normalize-scale-negative", "arrange-flip-some-weights")
 
 
 def gen_cases(tier, seed):
@@ -98,6 +101,7 @@ def gen_cases(tier, seed):
     # change first (which leaves differently laid-out factor matrices / absorbed weights behind)
     for i, case in enumerate(_gen_cases(tier, seed)):
         case["pre"] = PRE[(i * 5 + int(seed)) % len(PRE)]
+        case["npint"] = [None, 0, None, 1, 2, None, 3, 4][(i * 3 + int(seed)) % 8]
         yield case
 
 
@@ -116,7 +120,43 @@ def _prehistory(K, pre, rng):
             K.factor_matrices[n] = np.ascontiguousarray(K.factor_matrices[n])
     elif pre == "update-all":
         K.update(list(range(N)), K.tovec(False).copy())
+    elif pre == "arrange-negate":
+        K.arrange()
+        K = -K                                   # unit columns, weights all non-positive
+    elif pre == "normalize-scale-negative":
+        K.normalize()
+        K = K * -2.5
+    elif pre == "arrange-flip-some-weights":
+        K.arrange()
+        flip = rng.random(K.ncomponents) < 0.5
+        flip[int(rng.integers(0, K.ncomponents))] = True
+        K.weights[flip] *= -1.0                  # unit columns, weights of both signs
     return K
+
+
+NPINTS = [np.int64, np.intp, np.int32, np.int16, np.uint8]
+
+
+def _must_int(ctx, case, op, fn, *a, **k):
+    """ctx.must for calls that carry a NumPy-integer argument: such an argument may be rejected (the annotations say `int`), but if it
+    is accepted the promise is the same as for a Python int."""
+    if case.get("npint") is None:
+        return ctx.must(op, fn, *a, **k)
+    r = ctx.call(op, fn, *a, **k)
+    if not r.ok:
+        if isinstance(r.exc, (AssertionError, TypeError, ValueError)):
+            ctx.tag("numpy-integer argument rejected:" + op)
+            raise CaseAbort()
+        ctx.check(False, op, "RAISE:" + type(r.exc).__name__, f"{type(r.exc).__name__}: {r.exc} | {r.tb}")
+        raise CaseAbort()
+    return r.value
+
+
+def _arg(case, v):
+    """Integer arguments as callers produce them: a Python int, or the NumPy integer that `np.argmax`, `np.arange` ... hand out."""
+    if isinstance(v, (int, np.integer)) and not isinstance(v, bool) and case.get("npint") is not None and int(v) >= 0:
+        return NPINTS[case["npint"] % len(NPINTS)](v)
+    return v
 
 
 def _make(case, rng):
@@ -150,9 +190,10 @@ def run_case(case, ctx):
     if pre and case["w"] not in ("score", "score_zero", "fixsigns_ref"):
         made = denote(K)
         K = _prehistory(K, pre, np.random.default_rng(case["cseed"] + 17))
-        ctx.check(close(denote(K), made, scale=float(np.max(np.abs(made))) + 1e-300, tol=TOL), "ktensor." + pre.split("-")[0], "CHANGED-TENSOR",
-                  f"history step {pre} changed the denoted tensor", pre=pre)
-    ctx.feat(pre=str(pre))
+        if pre not in CHANGES_TENSOR:
+            ctx.check(close(denote(K), made, scale=float(np.max(np.abs(made))) + 1e-300, tol=TOL), "ktensor." + pre.split("-")[0], "CHANGED-TENSOR",
+                      f"history step {pre} changed the denoted tensor", pre=pre)
+    ctx.feat(pre=str(pre), npint=case.get("npint") is not None)
     before = denote(K)
     scale = float(np.max(np.abs(before))) + 1e-300
     ctx.feat(N=N, R=R, wk=case.get("wk"), zerocol=case.get("zerocol", False))
@@ -165,11 +206,11 @@ def run_case(case, ctx):
 
     if w == "normalize":
         nt = case["normtype"]
-        kw = {"weight_factor": case["weight_factor"], "sort": case["sort"], "normtype": (np.inf if nt == "inf" else nt)}
+        kw = {"weight_factor": _arg(case, case["weight_factor"]), "sort": case["sort"], "normtype": (np.inf if nt == "inf" else nt)}
         if case["mode"] is not None:
-            kw = {"mode": case["mode"], "normtype": kw["normtype"]}
+            kw = {"mode": _arg(case, case["mode"]), "normtype": kw["normtype"]}
         ctx.feat(weight_factor=str(case["weight_factor"]), sort=case["sort"], normtype=str(nt), single_mode=case["mode"] is not None)
-        r = ctx.must("ktensor.normalize", K.normalize, **kw)
+        r = _must_int(ctx, case, "ktensor.normalize", K.normalize, **kw)
         ctx.check(r is K, "ktensor.normalize", "NORMAL-FORM", "normalize should return self")
         unchanged("ktensor.normalize")
         if case["mode"] is not None:
@@ -196,7 +237,7 @@ def run_case(case, ctx):
             ctx.check(ok, "ktensor.arrange", "WRONG", "explicit permutation did not permute weights and columns exactly")
             unchanged("ktensor.arrange")
             return
-        ctx.must("ktensor.arrange", K.arrange, weight_factor=case["weight_factor"])
+        _must_int(ctx, case, "ktensor.arrange", K.arrange, weight_factor=_arg(case, case["weight_factor"]))
         unchanged("ktensor.arrange")
         if case["weight_factor"] is None:
             ctx.check(bool(np.all(K.weights >= 0)) and bool(np.all(np.diff(K.weights) <= 1e-12)), "ktensor.arrange", "NORMAL-FORM",
@@ -206,7 +247,7 @@ def run_case(case, ctx):
         else:
             ctx.check(bool(np.all(K.weights == 1.0)), "ktensor.arrange", "NORMAL-FORM", "weights not one after absorbing")
     elif w == "redistribute":
-        ctx.must("ktensor.redistribute", K.redistribute, case["mode"])
+        _must_int(ctx, case, "ktensor.redistribute", K.redistribute, _arg(case, case["mode"]))
         unchanged("ktensor.redistribute")
         ctx.check(bool(np.all(K.weights == 1.0)), "ktensor.redistribute", "NORMAL-FORM", f"weights not all one: {K.weights}")
     elif w == "vec":
@@ -225,7 +266,7 @@ def run_case(case, ctx):
         ctx.check(same(np.asarray(v2), np.asarray(v)), "ktensor.tovec", "WRONG", "vector -> ktensor -> vector differs")
     elif w == "tolist":
         ctx.feat(mode=case["mode"] is not None)
-        lst = ctx.must("ktensor.tolist", K.tolist, *([] if case["mode"] is None else [case["mode"]]))
+        lst = _must_int(ctx, case, "ktensor.tolist", K.tolist, *([] if case["mode"] is None else [_arg(case, case["mode"])]))
         ok = isinstance(lst, list) and len(lst) == N and all(np.asarray(a).shape == (s, R) for a, s in zip(lst, shape))
         ctx.check(ok, "ktensor.tolist", "WRONG", "tolist does not return one (I_n x R) matrix per mode")
         if ok:
